@@ -161,3 +161,18 @@ Definition mwstack_violates (c : mwstack_case) : bool :=
           (hrun false (erase_inner false (ms_st c)) (ms_h c) (ms_top c) (ms_script c))).
 Definition c20_mwstack_mismatches (dedup : bool) (cs : list mwstack_case) : list nat := positions (map (mwstack_mismatch dedup) cs).
 Definition c20_mwstack_violations (cs : list mwstack_case) : list nat := positions (map mwstack_violates cs).
+
+(** * overlapping invocations of a chain (gates between the applications only schedule; the mark of the
+    repaired middleware lives in the invocation's own message context, so the invocations are
+    independent: the log of a concurrent run is an interleaving of the per-invocation logs) *)
+Record mwconc_case := MwConcCase {
+  mc_st : list hlayer; mc_scripts : list (list hout); mc_tab : list (hlabel * nat)
+}.
+Definition mwconc_logs (dedup : bool) (st : list hlayer) (scripts : list (list hout)) : list (list hlabel) :=
+  map (fun s => snd (heval dedup st false 0%N s)) scripts.
+Definition mwconc_mismatch (c : mwconc_case) : bool :=
+  negb (counts_agree hlabel_eqb (mc_tab c) (concat (mwconc_logs true (mc_st c) (mc_scripts c)))).
+Definition mwconc_violates (c : mwconc_case) : bool :=
+  negb (counts_agree hlabel_eqb (mc_tab c) (concat (mwconc_logs false (erase_inner false (mc_st c)) (mc_scripts c)))).
+Definition c20_mwconc_mismatches (cs : list mwconc_case) : list nat := positions (map mwconc_mismatch cs).
+Definition c20_mwconc_violations (cs : list mwconc_case) : list nat := positions (map mwconc_violates cs).
